@@ -188,6 +188,9 @@ def gen_case(rng):
                         if rng.random() < 0.4:
                             run = rng.randint(1, 5)  # a run of consecutive switches
                 t = truth[i]
+                if P == 2 and f > 0 and max(t) >= 2 and rng.random() < 0.25:
+                    # this file calls another heterozygous genotype at the multi-allelic site (0|2 where the others have 1|2, ...)
+                    t = rng.choice([x for x in [(0, 1), (1, 0), (0, 2), (2, 0), (1, 2), (2, 1)] if sorted(x) != sorted(t)])
                 al = tuple(t[cur_perm[b][h]] for h in range(P))
                 if P > 2 and rng.random() < 0.08:
                     al = list(al)
@@ -319,6 +322,8 @@ def o_compare(case, pair):
                 b0 = "".join("0" if int(per[0][p][0][0]) < int(per[0][p][0][1]) else "1" for p in ps_)
                 b1 = "".join("0" if int(per[1][p][0][0]) < int(per[1][p][0][1]) else "1" for p in ps_)
                 r = o_block_diploid(b0, b1)
+                # a multi-allelic site can be heterozygous in both files with different genotypes (0|1 vs 0|2)
+                r["diff_gt"] = sum(1 for p in ps_ if sorted(per[0][p][0]) != sorted(per[1][p][0]))
                 tot["sf"][0] += r["sf"][0]
                 tot["sf"][1] += r["sf"][1]
                 tot["bed"] += r["switches"]
